@@ -223,7 +223,14 @@ def _keylists(draw):
         for _ in range(draw(st.integers(1, 2))):
             items.append(draw(st.sampled_from(_variants(k) + [k, k, k])))
     items = list(draw(st.permutations(items)))
-    return {"keys": items, "threshold": draw(st.sampled_from([1, 2, 0, -1, 1.5, None, "1", 10 ** 30]))}
+    layout = draw(st.sampled_from(["as-drawn", "as-drawn", "dup-apart", "dup-adjacent", "dup-ends"]))
+    if layout != "as-drawn":
+        # exactly one key listed twice in its canonical spelling, the two occurrences next to each other / apart / first and last
+        pool = list(dict.fromkeys(ks + [keys.pub_hex(keys.POOL[15]), keys.pub_hex(keys.POOL[14])]))[:max(3, len(ks))]
+        k = pool[0]
+        rest = pool[1:]
+        items = {"dup-apart": [k, rest[0], k] + rest[1:], "dup-adjacent": rest[:1] + [k, k] + rest[1:], "dup-ends": [k] + rest + [k]}[layout]
+    return {"keys": items, "threshold": draw(st.sampled_from([1, 2, 0, -1, 1.5, None, "1", 10 ** 30])), "layout": layout}
 
 
 def check_keylists(case):
